@@ -13,6 +13,8 @@ mod k6;
 mod k7;
 mod k8;
 mod k9;
+mod k10;
+mod k11;
 mod inputs;
 mod planners;
 mod refdft;
@@ -56,6 +58,8 @@ fn main() {
         "k8" => k8::run(rest),
         "bflyops" => k8::bflyops(rest),
         "k9" => k9::run(rest),
+        "k10" => k10::run(rest),
+        "k11" => k11::run(rest),
         "s02t" => s02t::run(rest),
         "s04" => s04::run(rest),
         "s05" => s05::run(rest),
